@@ -1,11 +1,16 @@
 (* C15 -- property theorems. This file holds ONLY statements, `exact <lemma>`, non-vacuity
    examples and Print Assumptions, so that the statements cannot be weakened quietly.
 
-   The json module is a parameter: `render` / `parse` with the hypothesis parse (render v) = Some v
-   (and, for truncation, that no proper prefix of a dumped list parses).  POSIX rename is the
-   atomic `Rename` primitive of the model.  Everything else is proved. *)
+   The theorems about restarts and truncation come twice: for any codec `render` / `parse` with the
+   hypothesis parse (render v) = Some v (and, for truncation, that no proper prefix of a dumped
+   list parses), and -- the `..._json` theorems at the end -- for the model of what the code really
+   calls, json.dump / json.load of CPython with their default arguments (Model/C15_json.v: integers,
+   strings with every escape incl. surrogate pairs, lists, dictionaries, null/true/false; floats are
+   outside the modelled subset), for which both hypotheses are theorems (json_roundtrip,
+   json_prefix_free).  POSIX rename is the atomic `Rename` primitive of the model.
+   Everything else is proved. *)
 From Coq Require Import ZArith List Bool.
-From Typhon Require Import Model.C15_cache Proofs.C15_cache.
+From Typhon Require Import Model.C15_cache Proofs.C15_cache Model.C15_json Proofs.C15_json.
 Import ListNotations.
 Open Scope Z_scope.
 
@@ -134,6 +139,57 @@ Theorem find_same_with_cache : forall (info_of : json -> entry),
 Proof. exact find_same_lemma. Qed.
 
 (* ---------------------------------------------------------------------------------------------
+   the json module as it is: json_dump / json_load of Model/C15_json.v *)
+
+(* json.load reads back what json.dump wrote, for every value of the subset: integers of any size,
+   strings of code points 0..0x10FFFF in which no high surrogate is directly followed by a low one
+   (lone surrogates are fine), lists, dictionaries with distinct string keys, null, true, false *)
+Theorem json_roundtrip : forall v, in_subset v -> json_load (json_dump v) = Some v.
+Proof. exact json_roundtrip_lemma. Qed.
+
+(* no proper prefix of a dumped list is accepted -- whatever the list holds (no hypothesis on l):
+   every truncation of a cache file, at any byte, is rejected by json.load *)
+Theorem json_prefix_free : forall l p, strict_prefix p (json_dump (JArr l)) -> json_load p = None.
+Proof. exact json_prefix_free_lemma. Qed.
+
+(* why: whatever json.load accepts ends outside every string and with every bracket closed ... *)
+Theorem json_load_accepts_closed_texts : forall s v, json_load s = Some v -> lex (LOut, 0) s = (LOut, 0).
+Proof. exact json_load_balanced. Qed.
+
+(* ... and a dumped list is at depth >= 1 from its first character up to, not including, its last *)
+Theorem json_dump_list_open_until_end : forall l p q,
+  p ++ q = json_dump (JArr l) -> p <> [] -> q <> [] -> 1 <= snd (lex (LOut, 0) p).
+Proof. exact dump_arr_prefix_depth. Qed.
+
+(* a cache that save_cache can hold (cache_ok) whose paths and attributes json can write and read
+   back (in the subset); the times are digits and punctuation *)
+Theorem cache_doc_in_subset : forall c, cache_json_ok c -> in_subset (doc_of c).
+Proof. intros c [H1 H2]. exact (doc_in_subset c H1 H2). Qed.
+
+(* save_load_roundtrip, crash_then_restart, history_restart, truncated_file with no hypothesis on
+   the codec *)
+Theorem save_load_roundtrip_json : forall c d, cache_json_ok c ->
+  restart json_load (save json_dump c d) = (c, Quiet).
+Proof. exact save_load_roundtrip_json_lemma. Qed.
+
+Theorem crash_then_restart_json : forall k c d, cache_json_ok c ->
+  let d' := crash_after k (save_ops (json_dump (doc_of c))) d in
+  restart json_load d' = restart json_load d \/ restart json_load d' = (c, Quiet).
+Proof. exact crash_then_restart_json_lemma. Qed.
+
+Theorem history_restart_json : forall (h : list (cache * option nat)) (m : option cache) b,
+  Forall (fun e => cache_json_ok (fst e)) h -> (forall c, m = Some c -> cache_json_ok c) ->
+  restart json_load (run_history (map (cache_event json_dump) h)
+                                 {| main := option_map (fun c => json_dump (doc_of c)) m; backup := b |})
+  = match last_cache json_dump m h with Some c => (c, Quiet) | None => ([], Quiet) end.
+Proof. exact history_restart_json_lemma. Qed.
+
+(* truncation of the cache file at any byte: warning, cache untouched -- for EVERY cache c *)
+Theorem truncated_file_json : forall c0 c p, strict_prefix p (json_dump (doc_of c)) ->
+  load_file json_load c0 (Content p) = (c0, Warned).
+Proof. exact truncated_json_lemma. Qed.
+
+(* ---------------------------------------------------------------------------------------------
    non-vacuity: a toy json module (one atom per value) meets both hypotheses; a cache with
    datetime.min / datetime.max, microseconds, a leap day, user attributes is cache_ok; it survives
    a restart, every crash point, and a damaged document changes nothing. *)
@@ -179,6 +235,49 @@ Proof.
   destruct Hrep as (kv & s0 & s1 & rest & a & Hj & _). discriminate Hj.
 Qed.
 
+
+(* non-vacuity of the ..._json theorems: a cache whose paths hold a quote, a backslash, a newline,
+   DEL, e acute, the euro sign, an astral character (U+1F600) and a lone surrogate (os.fsdecode), with
+   nested user attributes and a 30-digit integer, is cache_json_ok; the bytes json_dump writes for a
+   small cache are the ones a reader expects; the restart through json_load (json_dump ...) restores
+   it; every proper prefix of the file is rejected; and the subset hypothesis of json_roundtrip is
+   needed: two adjacent surrogate code points come back as one character. *)
+Definition ex_json_cache : cache :=
+  [ mk_entry (JStr [47; 34; 92; 10; 127; 233; 8364; 128512; 56448; 47; 97]) [1; 1; 1; 0; 0; 0; 0]
+             [9999; 12; 31; 23; 59; 59; 999999]
+             (JObj [([115; 97; 116], JStr [120]); ([110], JNum (-123456789012345678901234567890));
+                    ([108], JArr [JNull; JBool true; JBool false; JNum 0; JObj []; JArr []])]);
+    mk_entry (JStr [47; 98]) [2016; 2; 29; 23; 59; 59; 1] [2016; 3; 1; 0; 0; 0; 0] (JObj []) ].
+
+Example nonvacuous_json :
+  cache_json_ok ex_json_cache /\
+  json_dump (doc_of [mk_entry (JStr [47; 34; 233]) [1; 1; 1; 0; 0; 0; 0] [2016; 2; 29; 23; 59; 59; 1] (JObj [([97], JNum (-7))])])
+    = (* the text [{"path": "/\QUOTE\u00e9", "times": ["0001-01-01T00:00:00.000000", "2016-02-29T23:59:59.000001"], "attr": {"a": -7}}]
+         with \QUOTE standing for backslash, double quote *)
+      [91; 123; 34; 112; 97; 116; 104; 34; 58; 32; 34; 47; 92; 34; 92; 117; 48; 48; 101; 57; 34; 44; 32;
+       34; 116; 105; 109; 101; 115; 34; 58; 32; 91;
+       34; 48; 48; 48; 49; 45; 48; 49; 45; 48; 49; 84; 48; 48; 58; 48; 48; 58; 48; 48; 46; 48; 48; 48; 48; 48; 48; 34; 44; 32;
+       34; 50; 48; 49; 54; 45; 48; 50; 45; 50; 57; 84; 50; 51; 58; 53; 57; 58; 53; 57; 46; 48; 48; 48; 48; 48; 49; 34; 93; 44; 32;
+       34; 97; 116; 116; 114; 34; 58; 32; 123; 34; 97; 34; 58; 32; 45; 55; 125; 125; 93] /\
+  restart json_load (save json_dump ex_json_cache {| main := None; backup := Some [1; 2] |}) = (ex_json_cache, Quiet) /\
+  (let v := prefix_verdicts (json_dump (doc_of ex_json_cache)) in
+   forallb negb (removelast v) = true /\ last v false = true /\ (300 <? length v)%nat = true) /\
+  json_load (json_dump (JStr [55357; 56832])) = Some (JStr [128512]) /\
+  json_load [32; 91; 49; 32; 44; 10; 34; 92; 117; 68; 56; 51; 68; 92; 117; 68; 69; 48; 48; 92; 47; 34; 93; 13] (* space [1 space , newline "\uD83D\uDE00\/"] carriage-return *)
+    = Some (JArr [JNum 1; JStr [128512; 47]]).
+Proof.
+  split.
+  { split.
+    - split.
+      + repeat constructor; try reflexivity; eexists; reflexivity.
+      + cbn. repeat constructor; cbn; intuition discriminate.
+    - apply cache_subsetb_spec. vm_compute. reflexivity. }
+  split; [vm_compute; reflexivity|].
+  split; [vm_compute; reflexivity|].
+  split; [vm_compute; repeat split; reflexivity|].
+  split; vm_compute; reflexivity.
+Qed.
+
 Print Assumptions crash_safe.
 Print Assumptions history_safe.
 Print Assumptions time_roundtrip.
@@ -194,3 +293,12 @@ Print Assumptions loaded_times_are_valid.
 Print Assumptions damaged_file.
 Print Assumptions truncated_file.
 Print Assumptions find_same_with_cache.
+Print Assumptions json_roundtrip.
+Print Assumptions json_prefix_free.
+Print Assumptions json_load_accepts_closed_texts.
+Print Assumptions json_dump_list_open_until_end.
+Print Assumptions cache_doc_in_subset.
+Print Assumptions save_load_roundtrip_json.
+Print Assumptions crash_then_restart_json.
+Print Assumptions history_restart_json.
+Print Assumptions truncated_file_json.
